@@ -53,6 +53,7 @@ func init() {
 		{"e", c04In, "", A("none")},
 		{"f", c04Enum, "", A("none")},
 		{"g", i, "5", N("go", N("int", A("i64"), I(5)))},
+		{"h", c04NN(s), `"hd"`, N("go", N("str", S("hd")))},
 	}
 	for _, sc := range []struct{ g, w string }{{"Int", "int"}, {"Int64", "int64"}, {"Float", "float"}, {"Float64", "float64"},
 		{"String", "string"}, {"ID", "id"}, {"Boolean", "boolean"}} {
@@ -514,6 +515,12 @@ func init() {
 type c04S struct {
 	X int32
 	Y string
+	V int32
+	W int32
+	N int8
+	U uint8
+	F float32
+	Ns []int16
 }
 
 type c04SNode struct {
@@ -550,6 +557,21 @@ var c04STable = []struct {
 	{`query($z: Int){ s(in: {x: 1, z: $z}) }`, map[string]interface{}{"z": 3}, "z"},
 	{`{ l(ins: [{x: 1}, {z: 2}]) }`, nil, "z"},
 	{`{ l(ins: [{x: 1}, {y: "b"}]) }`, nil, ""},
+	// an explicit null for a field that has a default: not replaced by the default — refused where the field is non-null
+	{`{ s(in: {w: null}) }`, nil, "!w"},
+	{`query($v: SIn){ s(in: $v) }`, map[string]interface{}{"v": map[string]interface{}{"w": nil}}, "!w"},
+	{`{ s(in: {v: null}) }`, nil, ""},
+	// members of the registered struct that are narrower than the declared type: a value that does not fit is refused,
+	// not truncated (n: int8, u: uint8, f: float32, ns: []int16)
+	{`{ s(in: {n: 100}) }`, nil, ""},
+	{`{ s(in: {n: 300}) }`, nil, "!n"},
+	{`{ s(in: {n: -129}) }`, nil, "!n"},
+	{`{ s(in: {u: 255}) }`, nil, ""},
+	{`{ s(in: {u: 256}) }`, nil, "!u"},
+	{`{ s(in: {f: 1.5}) }`, nil, ""},
+	{`{ s(in: {f: 1e300}) }`, nil, "!f"},
+	{`{ s(in: {ns: [1, 70000]}) }`, nil, "!ns"},
+	{`query($v: SIn){ s(in: $v) }`, map[string]interface{}{"v": map[string]interface{}{"n": 300}}, "!n"},
 }
 
 func c04Structs(o *Out) {
@@ -557,7 +579,7 @@ func c04Structs(o *Out) {
 		for _, e := range c04STable {
 			node := &c04SNode{}
 			root := ggql.NewRoot(node)
-			if err := root.ParseString("input SIn { x: Int y: String }\ntype Query { s(in: SIn): Int l(ins: [SIn]): Int }"); err != nil {
+			if err := root.ParseString("input SIn { x: Int y: String v: Int = 3 w: Int! = 7 n: Int u: Int f: Float64 ns: [Int] }\ntype Query { s(in: SIn): Int l(ins: [SIn]): Int }"); err != nil {
 				panic(err)
 			}
 			if registered {
@@ -567,6 +589,13 @@ func c04Structs(o *Out) {
 			}
 			res := safeResolve(root, e.doc, "", e.vars)
 			named := e.unknown != "" && strings.Contains(canon(res["errors"]), e.unknown+" is not a field")
+			if strings.HasPrefix(e.unknown, "!") {
+				ec := canon(res["errors"])
+				named = strings.Contains(ec, e.unknown[1:]+" is required") || strings.Contains(ec, `"`+e.unknown[1:]+`"`) || strings.Contains(ec, " at "+e.unknown[1:])
+				if !registered && (e.unknown == "!n" || e.unknown == "!u" || e.unknown == "!f" || e.unknown == "!ns") {
+					continue // without a Go struct the value stays in a map: nothing is narrowed
+				}
+			}
 			o.Count("input-with-registered-struct cases")
 			o.Emit(Case{
 				Term: N("c04s", S(e.doc), B(registered), B(e.unknown != "")),
